@@ -1,7 +1,11 @@
 use crate::errors::PriceLevelError;
 use crate::orders::{OrderId, OrderType};
+#[cfg(not(pricelevel_verif))]
 use crossbeam::queue::SegQueue;
+#[cfg(not(pricelevel_verif))]
 use dashmap::DashMap;
+#[cfg(pricelevel_verif)]
+use crate::verif_hooks::{DashMap, SegQueue};
 use serde::de::{SeqAccess, Visitor};
 use serde::ser::SerializeSeq;
 use serde::{Deserialize, Deserializer, Serialize, Serializer};
